@@ -34,6 +34,9 @@ def parseFldTok (t : String) : Option Fld :=
   | ["t", a, n] => match a.toInt?, n.toNat? with
     | some a, some n => some (Fld.bytes (encodeTime a n))
     | _, _ => none
+  | ["p", h, v] => match h.toInt?, unhex v with   -- an upgrade plan: a nested struct of height (int64) and version
+    | some h, some v => some (Fld.bytes (encodeStruct 1 [Fld.uint (toU64 h), Fld.bytes v]))
+    | _, _ => none
   | ["k", p, k] => match unhex p, unhex k with
     | some p, some k => some (Fld.bytes (p ++ lenPrefixed k))
     | _, _ => none
@@ -99,6 +102,9 @@ def stepCodec (p : CodecProg) (toks : List String) : CodecProg × String :=
       | some pre, some m, some pk, some sg, some memo, some ent, some fee =>
         "ok " ++ hx (encodeStdTx pre { msg := m, fee := fee, pk := pk, sig := sg, memo := memo, entropy := ent })
       | _, _, _, _, _, _, _ => "bad-op")
+  | "amsg2" :: _ :: pre :: toks => (p, match unhex pre, toks.mapM parseFldTok with   -- a registered message with a key or a nested plan
+    | some pre, some fs => "ok " ++ hx (pre ++ encodeStruct 1 fs)
+    | _, _ => "bad-op")
   | "astruct" :: _ :: toks => (p, match toks.mapM parseFldTok with
     | some fs => "ok " ++ hx (encodeStruct 1 fs)
     | none => "bad-op")
